@@ -10,7 +10,7 @@ import itertools
 from lib.core import zlit
 
 MANIFEST = {
-    'text': 'Coq theorems (31, all closed under the global context) over the faithful list model of gfpx.Polynomial, for every '
+    'text': 'Coq theorems (33, all closed under the global context) over the faithful list model of gfpx.Polynomial, for every '
             'prime p and all normal-form coefficient lists of unbounded degree: add/sub/neg/mul, the divmod remainder and the '
             'gcdext outputs are normal forms; coefficient semantics of add/sub/neg; (GF(p)[X],+) is a commutative group (comm, '
             'assoc, zero, inverse, sub = add neg); mul is the convolution reduced mod p (mul_coef + mulz_is_convolution), '
@@ -22,7 +22,10 @@ MANIFEST = {
             'monic, deriv, int conversion, comparisons, evaluation, for both classes) are tied to /repo on every run: all '
             'operators incl. reflected and int-mixed forms on all pairs of degree <= 3 over p in {2,3}, <= 2 over {5,7} '
             '(thorough: <= 3 over 5), binary class to degree 6, and random pairs up to degree 12 over p in {2,3,11,101,2^31-1}, '
-            'compared exactly with vm_compute of the model; an independent schoolbook oracle checks every implementation result.',
+            'and powmod for every exponent in -40..40 plus random |n| < 2^64 (invertible and non-invertible bases, all classes, '
+            'p up to 2^31-1), compared exactly with vm_compute of the model; an independent schoolbook oracle checks every '
+            'implementation result (negative powers: powmod(a,-n,b) = powmod(invert(a,b), n, b) by an independent extended Euclid '
+            'and right-to-left square-and-multiply).',
     'note': 'Findings: F-C23-1 (powmod(a, 1, b) unreduced) is repaired in /repo by a226feb (base reduced first) and the models '
             'follow the repaired code; powmod(a, 0, b) = 1 for every b is the package convention (pinned by its own tests) and '
             'is the specified behaviour here. F-C23-2 (BinaryPolynomial.__call__ returns 0 at every even x instead of the '
@@ -33,7 +36,7 @@ MANIFEST = {
             'values; in the quick tier the model is evaluated on a deterministic sample of table rows for p in {5,7} and the '
             'degree<=6 binary table (all rows in the thorough tier) while implementation+oracle cover every pair. gmpy2.invert modulo p is modelled by Zp.inv_raw (unique inverse for prime p). NOT proved in Coq '
             '(covered only by the implementation-level oracle and the correspondence): gcd is the greatest common divisor '
-            '(divides both / universal; only Bezout + monic is proved), quotient q has no trailing zero (only range proved), wf of lshift/rshift/monic/deriv/from_int, invert_spec, powmod = repeated multiplication, to_int/from_int order isomorphism, '
+            '(divides both / universal; only Bezout + monic is proved), powmod_neg_correct (result * a^n = 1 mod b; only the as-coded equation powmod a (-n) b = powmod (invert a b) n b is a theorem), finfields ExtensionFieldElement.__pow__ is left to C20, quotient q has no trailing zero (only range proved), wf of lshift/rshift/monic/deriv/from_int, invert_spec, powmod = repeated multiplication, to_int/from_int order isomorphism, '
             'deriv/reverse/truncate semantics, and the refinement binary-class mul/divmod = list mul/divmod at p = 2 '
             '(only add/sub refinement is proved). _reverse/_truncate/_from_terms/_to_terms are not modelled.',
     'technique': 'Coq proof over executable model (integer-polynomial evaluation semantics + canonical forms) + '
@@ -122,6 +125,31 @@ def r_pow_rep(p, a, n, b):
     r = r_divmod(p, [1], b)[1]
     for _ in range(n):
         r = r_divmod(p, r_mul(p, r, a), b)[1]
+    return r
+
+
+def r_invert(p, a, b):
+    """inverse of a modulo b (b != 0) by an independent extended Euclid; None if gcd(a, b) != 1."""
+    r0, r1 = list(b), r_divmod(p, a, b)[1]
+    s0, s1 = [], [1]                       # s_i * a = r_i  (mod b)
+    while r1:
+        q, r2 = r_divmod(p, r0, r1)
+        r0, r1 = r1, r2
+        s0, s1 = s1, r_sub(p, s0, r_mul(p, q, s1))
+    if len(r0) != 1:
+        return None
+    c = pow(r0[0], -1, p)
+    return r_divmod(p, [x * c % p for x in s0], b)[1]
+
+
+def r_powmod_sm(p, a, n, b):
+    """a^n mod b, n >= 0, right-to-left square-and-multiply (independent of the left-to-right loop in gfpx)."""
+    r, base = r_divmod(p, [1], b)[1], r_divmod(p, a, b)[1]
+    while n:
+        if n & 1:
+            r = r_divmod(p, r_mul(p, r, base), b)[1]
+        base = r_divmod(p, r_mul(p, base, base), b)[1]
+        n >>= 1
     return r
 
 
@@ -277,6 +305,12 @@ Definition unary2 (a : Z) (xs : list Z) : list (list Z) :=
   ++ [[snd (monic_pinv2 a); a; blen a; bz (negb (a =? 0))] ++ map (fun x => call2 a x) xs].
 Definition pw2 (a b : Z) : list (list Z) :=
   flat_map (fun n => ez (powmod2 a n (Some b))) [-2;-1;0;1;2;3;5;2].
+Definition pwd (p ia ib : Z) (ns : list Z) : list (list Z) :=
+  let a := from_int p ia in let b := from_int p ib in flat_map (fun n => er (powmod p a n (Some b))) ns.
+Definition pwd0 (p ia : Z) (ns : list Z) : list (list Z) :=
+  let a := from_int p ia in flat_map (fun n => er (powmod p a n None)) ns.
+Definition pwd2 (a b : Z) (ns : list Z) : list (list Z) := flat_map (fun n => ez (powmod2 a n (Some b))) ns.
+Definition pwd20 (a : Z) (ns : list Z) : list (list Z) := flat_map (fun n => ez (powmod2 a n None)) ns.
 (* rolling hash of result tables *)
 Definition HQ := 2305843009213693951.
 Definition hz (h x : Z) := (h * 1000003 + x + 7) mod HQ.
@@ -671,6 +705,65 @@ def run(ctx):
                 nt += 1
                 ctx.case({'triple': tr, 'class': I.name}, nontrivial=all(tr), kind='ring-law-triples-random')
     ctx.extra['ring_law_triples'] = nt
+    # ---- stream 2b: powmod over a dense exponent range, negative exponents included (every n in -40..40, random |n| < 2^64),
+    #      invertible and non-invertible bases, with and without modulus; oracle: powmod(a, -n, b) = powmod(invert(a, b), n, b)
+    #      by an independent extended Euclid + right-to-left square-and-multiply; also compared with the Coq model
+    npw = 0
+    for p, gen in ((2, False), (2, True), (3, False), (5, False), (7, False), (11, False), (101, False), (2 ** 31 - 1, False)):
+        I = impl(p, gen)
+        P = I.P
+        pairs = []
+        for rep in range(ctx.n(6, 30)):
+            db = rng.randint(1, 4) if p < 1000 else rng.randint(1, 3)
+            b = [rng.randrange(p) for _ in range(db)] + [rng.randrange(1, p)]
+            a = [rng.randrange(p) for _ in range(rng.randint(0, 6))] + [rng.randrange(1, p)]
+            if rep % 3 == 2:                    # force a common factor: not invertible
+                f_ = [rng.randrange(p), 1]
+                a, b = r_mul(p, a[:3] or [1], f_), r_mul(p, b[:3], f_)
+            pairs.append((r_to_int(p, r_norm(a)), r_to_int(p, r_norm(b))))
+        pairs += [(p + 1, p * p + 1), (1, p), (0, p + 1), (p + 1, 1)]          # X+1 mod X^2+1; 1 mod X; 0; constant modulus
+        for ia, ib in pairs:
+            a, b = r_from_int(p, ia), r_from_int(p, ib)
+            ns = list(range(-40, 41)) + [s * rng.randrange(1, 2 ** rng.choice([8, 16, 33, 64])) for s in (1, -1) for _ in range(5)]
+            A, B = P(ia), P(ib)
+            inv = r_invert(p, a, b)
+            got_all, got0 = [], []
+            for n in ns:
+                got = I.uni(guard(lambda: P.powmod(A, n, B)))
+                got_all.append(guard(lambda: P.powmod(A, n, B)))
+                if n == 0:
+                    want = [1]
+                elif n > 0:
+                    want = r_powmod_sm(p, a, n, b)
+                else:
+                    want = ZERODIV if inv is None else r_powmod_sm(p, inv, -n, b)
+                npw += 1
+                if got != want:
+                    ctx.violation('powmod-wrong n=%d %s' % (n, I.name), {'class': I.name, 'p': p, 'a': ia, 'b': ib, 'n': n,
+                                                                          'a_coef': a, 'b_coef': b, 'got': got, 'want': want,
+                                                                          'invertible': inv is not None})
+            ns0 = list(range(-3, 7))
+            for n in ns0:                       # no modulus: n < 0 -> ValueError, else plain power
+                g0 = guard(lambda: A ** n)
+                got0.append(g0)
+                want = VALUE
+                if n >= 0:
+                    want = [1]
+                    for _ in range(n):
+                        want = r_mul(p, want, a)
+                if I.uni(g0) != want:
+                    ctx.violation('pow-wrong n=%d %s' % (n, I.name), {'class': I.name, 'p': p, 'a': ia, 'n': n, 'got': I.uni(g0),
+                                                                       'want': want})
+            if I.binary:
+                e = 'pwd2 %d %d %s ++ pwd20 %d %s' % (ia, ib, zl(ns), ia, zl(ns0))
+            else:
+                e = 'pwd %d %d %d %s ++ pwd0 %d %d %s' % (p, ia, ib, zl(ns), p, ia, zl(ns0))
+            exprs.append(e)
+            expect.append([I.enc(x) for x in got_all + got0])
+            key = {'class': I.name, 'p': p, 'a': ia, 'b': ib, 'stream': 'powmod-dense', 'ns': ns[81:]}
+            meta.append(key)
+            ctx.case(key, nontrivial=len(b) > 1, kind='powmod-dense %s' % I.name)
+    ctx.extra['powmod_dense_evaluations'] = npw
     # ---- stream 4: error inputs
     for p in (2, 3, 101):
         error_stream(ctx, gfpx, impl(p))
